@@ -4,6 +4,7 @@ import (
 	"bytes"
 	"crypto/sha256"
 	"encoding/hex"
+	"encoding/json"
 	"io"
 	"os"
 	"path/filepath"
@@ -236,5 +237,39 @@ func TestCheckHeader(t *testing.T) {
 	}
 	if v, n, _ := CheckHeader(h[:len(h)-1], id); v != HeaderRejected || n != -1 {
 		t.Fatal(v, n)
+	}
+}
+
+func TestManifestStyles(t *testing.T) {
+	id := func(wfk []byte, kw int, name string) ([]byte, error) { return wfk, nil }
+	name := "dir/<key>&\"q\\ é ключ \u2028\u2029 😀 \b\f\t\n\x7f end"
+	seen := map[string]bool{}
+	for _, ord := range ManifestOrders {
+		for _, esc := range ManifestEscapes {
+			doc, err := Encrypt([]byte("hello"), EncryptOptions{KeyName: name, KW: KWA256KW, Cipher: CipherChaCha, ManifestOrder: ord, ManifestEscape: esc,
+				FileKey: bytes.Repeat([]byte{0xFB, 0xFF}, 16), NoncePrefix: []byte{0xFF, 0xFE, 0xFF, 0xFF, 0xBF, 0xFF, 0xFF}, Wrap: func(k []byte) ([]byte, error) { return k, nil }})
+			if err != nil {
+				t.Fatal(err)
+			}
+			d, err := Parse(doc)
+			if err != nil {
+				t.Fatalf("%s/%s: %v\n%s", ord, esc, err, doc[:200])
+			}
+			if d.Manifest.Key != name {
+				t.Fatalf("%s/%s: key name %q", ord, esc, d.Manifest.Key)
+			}
+			var cp bytes.Buffer
+			if json.Compact(&cp, d.Lines[1]) != nil || !bytes.Equal(cp.Bytes(), d.Lines[1]) || bytes.ContainsAny(d.Lines[1], "\n\r") {
+				t.Fatalf("%s/%s: manifest is not compact JSON on one line", ord, esc)
+			}
+			got, err := Decrypt(doc, id)
+			if err != nil || string(got) != "hello" {
+				t.Fatalf("%s/%s: %v", ord, esc, err)
+			}
+			seen[string(d.Lines[1])] = true
+		}
+	}
+	if len(seen) != len(ManifestOrders)*len(ManifestEscapes) {
+		t.Fatalf("only %d distinct manifest lines", len(seen))
 	}
 }
